@@ -56,6 +56,7 @@ func checkC14(P *Prog, r *Result) {
 	// a list sent as `tags[]=` is a list in every front end: a single blank value is a one-element list as it is in JSON
 	// and in a Go map, not a scalar that reads as absent (C15's rule)
 	shareRule(P, r, checkC15, "C15/list-key-always-list", nil, "C14/list-presentation-agrees", 1)
+	P.checkNoBoxedReflectValue(r, "C14/typed-map-leaves-unboxed")
 	r.floor("C14/getbyfield-agreement", 3)
 	// the key of a field depends only on (field, schema key, the provider's own tag): the canonical return table
 	P.checkTagPriority(r, "C14/key-resolution")
@@ -425,6 +426,38 @@ func (P *Prog) checkDecodeFailure(r *Result) {
 		r.sawFunc(fname(fn))
 		var problems []string
 		nFail, nOK := 0, 0
+		// encoding/json refuses a document whose top level is not an object only when it decodes into a map (or a
+		// struct); decoding into `any` accepts every document, and then the success return has to lie behind a checked
+		// assertion that the decoded value is a map
+		decodesIntoAny := ""
+		eachInstr(fn, func(_ *ssa.BasicBlock, _ int, in ssa.Instruction) {
+			c, ok := in.(*ssa.Call)
+			if !ok || callOf(c).static == nil {
+				return
+			}
+			var dst ssa.Value
+			switch callOf(c).static.String() {
+			case "(*encoding/json.Decoder).Decode":
+				dst = c.Call.Args[1]
+			case "encoding/json.Unmarshal":
+				dst = c.Call.Args[1]
+			default:
+				return
+			}
+			v := cv(dst)
+			if mi, isMI := v.(*ssa.MakeInterface); isMI {
+				v = cv(mi.X)
+			}
+			if pt, isP := v.Type().Underlying().(*types.Pointer); isP {
+				switch pt.Elem().Underlying().(type) {
+				case *types.Map, *types.Struct:
+				default:
+					decodesIntoAny = P.ipos(in)
+				}
+			} else {
+				decodesIntoAny = P.ipos(in)
+			}
+		})
 		eachInstr(fn, func(b *ssa.BasicBlock, _ int, in ssa.Instruction) {
 			rt, ok := in.(*ssa.Return)
 			if !ok || len(rt.Results) != 2 {
@@ -499,6 +532,21 @@ func (P *Prog) checkDecodeFailure(r *Result) {
 				nOK++
 				if !isNilConst(iss) {
 					problems = append(problems, "a successful decode returns a non-nil issue at "+P.ipos(in))
+				}
+				if decodesIntoAny != "" && sp.code == "invalid_json" {
+					isMap := false
+					for _, gd := range guardsOf(b) {
+						if ex, isEx := gd.If.Cond.(*ssa.Extract); isEx && ex.Index == 1 && gd.True {
+							if ta, isTA := ex.Tuple.(*ssa.TypeAssert); isTA && ta.CommaOk {
+								if _, m := ta.AssertedType.Underlying().(*types.Map); m {
+									isMap = true
+								}
+							}
+						}
+					}
+					if !isMap {
+						problems = append(problems, "the document is decoded into a value of any type ("+decodesIntoAny+") and the success return at "+P.ipos(in)+" is not behind a checked assertion that it is an object: a JSON array, string, number or boolean body is accepted as an empty record instead of being reported as "+sp.code)
+					}
 				}
 			}
 		})
@@ -1419,5 +1467,58 @@ func (P *Prog) checkListKeyAlwaysList(r *Result, rule string) {
 	}
 	if n == 0 {
 		r.undecided(rule, "urlDataProvider.Get", "-", "the Get method of the url.Values provider was not found")
+	}
+}
+
+// checkNoBoxedReflectValue: a record given as a typed Go map (map[string]int, a named map type) is copied into the
+// provider's map[string]any leaf by leaf; a leaf must go in as the value it holds (`v.Interface()`), not as the
+// reflect.Value that describes it - boxed into `any` that compiles, and every coercer then sees a reflect.Value
+// where the same record as JSON or as map[string]any gives it a number. The rule: in the module's execution code a
+// reflect.Value is never converted to an interface and then stored (into a map, a slice, a field) or returned;
+// handing one to fmt or to a panic is not data flow.
+func (P *Prog) checkNoBoxedReflectValue(r *Result, rule string) {
+	n := 0
+	for _, fn := range P.Funcs {
+		if !inModule(funcPkgPath(fn)) || strings.Contains(funcPkgPath(fn), "/tutils") || fn.Synthetic != "" {
+			continue
+		}
+		eachInstr(fn, func(_ *ssa.BasicBlock, _ int, in ssa.Instruction) {
+			mi, ok := in.(*ssa.MakeInterface)
+			if !ok {
+				return
+			}
+			nt := namedOf(mi.X.Type())
+			if nt == nil || nt.Obj().Pkg() == nil || nt.Obj().Pkg().Path() != "reflect" || nt.Obj().Name() != "Value" {
+				return
+			}
+			if _, isPtr := mi.X.Type().Underlying().(*types.Pointer); isPtr {
+				return
+			}
+			stored := ""
+			if refs := mi.Referrers(); refs != nil {
+				for _, rf := range *refs {
+					switch x := rf.(type) {
+					case *ssa.MapUpdate:
+						if x.Value == ssa.Value(mi) {
+							stored = "stored as a map element"
+						}
+					case *ssa.Store:
+						if x.Val == ssa.Value(mi) {
+							stored = "stored"
+						}
+					case *ssa.Return:
+						stored = "returned"
+					}
+				}
+			}
+			if stored == "" {
+				return
+			}
+			n++
+			r.bad(rule, fmt.Sprintf("%s#boxed-reflect-value@%d", fname(fn), n), P.ipos(in), "a reflect.Value is converted to an interface and "+stored+" as data (Interface() is missing): the leaves of a typed Go map reach the schemas as reflect.Value and fail to coerce, where the same record as JSON or map[string]any parses")
+		})
+	}
+	if n == 0 {
+		r.ok(rule, "module", "-", "no reflect.Value is boxed into an interface and stored or returned as data")
 	}
 }
